@@ -295,12 +295,18 @@ def check_obs(tier):
            object_bits=12, timeout=900, mem=8, cost=10, replay=False, kind='bounded', bound='at most 3 failed blocks, block size 8',
            functions=['repair: region "reprocess the CHG blocks" (cmdline/check.c, extracted mechanically)', 'hash_is_invalid / hash_is_zero (cmdline/elem.h)'],
            note='every bad / state / past-hash kind (invalid, zero, ordinary) per entry, every rebuilt content, every comparison outcome; entries sit in disk slots different from their position in failed[]; blockcmp replaced by a recording contract (dfcc)'),
-        Ob('check.repair_step', K, 'h_repair_step', route='dfcc', replace=['raid_data', 'raid_gen', 'is_hash_matching', 'is_parity_matching'], unwind=14 if tier == 'thorough' else 10, small_path=True, object_bits=12, solver=KISSAT,
-           timeout=6000 if tier == 'thorough' else 1500, mem=12, cost=30, functions=cf('repair_step') + ['combination_first / combination_next (raid/combo.h)'], replay=False, kind='bounded',
-           bound='1 failed block and parity levels 1..2 (thorough: 2 failed blocks, levels 1..3), every readability pattern of the parities and every sequence of validation verdicts',
-           defs={'REPAIR_LEVEL_MAX': 3 if tier == 'thorough' else 2, 'NFAIL': 2 if tier == 'thorough' else 1, 'NATT': 4 if tier == 'thorough' else 3},
-           note='raid_data / raid_gen / is_hash_matching / is_parity_matching replaced by recording contracts (goto-instrument --dfcc)'),
-        ] + [Ob('check.repair_step.beyond_parity.f%d.l%d' % (fc, lv), K, 'h_repair_step_many', route='dfcc', replace=['raid_data', 'raid_gen', 'is_hash_matching', 'is_parity_matching'], unwind=16, small_path=True, object_bits=12, solver=KISSAT,
+        ] + ([Ob('check.repair_step', K, 'h_repair_step', route='dfcc', replace=['raid_data', 'raid_gen', 'is_hash_matching', 'is_parity_matching'], unwind=10, small_path=True, object_bits=12, solver=KISSAT,
+           timeout=1500, mem=12, cost=30, functions=cf('repair_step') + ['combination_first / combination_next (raid/combo.h)'], replay=False, kind='bounded',
+           bound='1 failed block and parity levels 1..2, every readability pattern of the parities and every sequence of validation verdicts',
+           defs={'REPAIR_LEVEL_MAX': 2, 'NFAIL': 1, 'NATT': 3},
+           note='raid_data / raid_gen / is_hash_matching / is_parity_matching replaced by recording contracts (goto-instrument --dfcc)')]
+        if tier != 'thorough' else
+        [Ob('check.repair_step.f%d.l%d' % (nf, lv), K, 'h_repair_step', route='dfcc', replace=['raid_data', 'raid_gen', 'is_hash_matching', 'is_parity_matching'], unwind=14, small_path=True, object_bits=12, solver=KISSAT,
+           timeout=6000, mem=16, cost=30, functions=cf('repair_step') + ['combination_first / combination_next (raid/combo.h)'], replay=False, kind='bounded',
+           bound='up to %d failed blocks and %d parity levels, every readability pattern of the parities and every sequence of validation verdicts' % (nf, lv),
+           defs={'REPAIR_LEVEL_MAX': lv, 'REPAIR_LEVEL_IS': lv, 'NFAIL': nf, 'NATT': 4},
+           note='raid_data / raid_gen / is_hash_matching / is_parity_matching replaced by recording contracts (goto-instrument --dfcc)') for nf, lv in ((1, 1), (1, 2), (1, 3), (2, 2), (2, 3))]) + [
+Ob('check.repair_step.beyond_parity.f%d.l%d' % (fc, lv), K, 'h_repair_step_many', route='dfcc', replace=['raid_data', 'raid_gen', 'is_hash_matching', 'is_parity_matching'], unwind=16, small_path=True, object_bits=12, solver=KISSAT,
            timeout=1500, mem=8, cost=8, functions=cf('repair_step'), replay=False, defs={'VERIF_MANY': None, 'NFAIL': 3, 'NATT': 3, 'REPAIR_LEVEL_MAX': 6, 'MANY_FC': fc, 'MANY_LEVEL': lv},
            note='%d failed blocks, %d parity levels%s: memory safety of the real function and "no strategy"' % (fc, lv, ' (more failed blocks than LEV_MAX, the size of the local index vectors)' if fc > 6 else ''))
            for fc, lv in ((3, 2), (7, 1), (7, 6), (8, 6))] + [    ]
